@@ -90,6 +90,16 @@ impl Session {
         }
     }
 
+    /// files next to the document (modules it imports)
+    pub fn write_siblings(&self, path: &Path, spec: &Value) {
+        std::fs::create_dir_all(path.parent().unwrap()).unwrap();
+        if let Some(sib) = spec["siblings"].as_object() {
+            for (name, text) in sib {
+                std::fs::write(path.parent().unwrap().join(name), text.as_str().unwrap_or("")).unwrap();
+            }
+        }
+    }
+
     pub fn open(&mut self, path: &Path, text: &str) -> Url {
         std::fs::create_dir_all(path.parent().unwrap()).unwrap();
         std::fs::write(path, text).unwrap();
@@ -158,6 +168,7 @@ pub fn converge_main(args: &[String]) {
     std::fs::create_dir_all(&workdir).unwrap();
     let doc = workdir.join("docs").join("doc.er");
     let mut s = Session::new(&workdir);
+    s.write_siblings(&doc, &spec);
     let uri = s.open(&doc, spec["base"].as_str().unwrap());
     s.drain();
     for step in spec["steps"].as_array().unwrap() {
@@ -181,6 +192,7 @@ pub fn converge_main(args: &[String]) {
     // but to be safe the fresh one uses another document path)
     let doc2 = workdir.join("docs2").join("doc.er");
     let mut f = Session::new(&workdir);
+    f.write_siblings(&doc2, &spec);
     let uri2 = f.open(&doc2, final_text);
     f.drain();
     let fresh = norm_diags(f.last_diagnostics(&uri2));
@@ -194,6 +206,7 @@ pub fn fresh_main(args: &[String]) {
     let workdir = PathBuf::from(&args[1]);
     let doc = workdir.join("docs").join("doc.er");
     let mut f = Session::new(&workdir);
+    f.write_siblings(&doc, &spec);
     let uri = f.open(&doc, spec["final"].as_str().unwrap());
     f.drain();
     println!("{}", json!({"fresh": norm_diags(f.last_diagnostics(&uri)), "panicked": f.panicked}));
